@@ -15,14 +15,29 @@ open Goyang.Model Goyang.Spec.Include Goyang.Lemmas.Tree Goyang.Spec.Tree Goyang
 abbrev PVal := Mod → List Stmt → Stmt → Entry
 def pureRec (v : PVal) : Rec := fun r s c _ st => (v r s c, st)
 
-/-- Keywords whose substatements the field steps convert. -/
-def convKws : List String :=
-  ["anydata", "anyxml", "case", "choice", "container", "leaf", "leaf-list", "list", "notification", "rpc", "action",
-   "grouping", "uses", "deviation", "deviate"]
-
-/-- `c` is converted by the field step `f` of statement `n`. -/
-def Called (n : Stmt) (f : String) (c : Stmt) : Prop :=
+/-- `c` is converted by the field step `f` of statement `n` and its entry becomes part of (or is
+checked into) the entry of `n` (everything `Called` but the augment statements of a module). -/
+def CalledE (n : Stmt) (f : String) (c : Stmt) : Prop :=
   (f ∈ convKws ∧ c ∈ n.all f) ∨ ((f = "input" ∨ f = "output") ∧ n.one? f = some c)
+
+theorem CalledE.called {n c : Stmt} {f : String} (h : CalledE n f c) : Called n f c := by
+  rcases h with h | h
+  · exact Or.inl h
+  · exact Or.inr (Or.inl h)
+
+theorem Called.calledE {n c : Stmt} {f : String} (h : Called n f c) (hf : f ≠ "augment") : CalledE n f c := by
+  rcases h with h | h | ⟨h, _⟩
+  · exact Or.inl h
+  · exact Or.inr h
+  · exact absurd h hf
+
+/-- A substatement that a field step converts is not a (sub)module statement. -/
+theorem called_not_mod {n c : Stmt} {f : String} (hf : f ∈ fieldOrder n.kw) (hc : Called n f c) : isModKw c = false := by
+  have hk := hc.kw
+  unfold isModKw; rw [hk]
+  have hfm : f ≠ "module" ∧ f ≠ "submodule" := by
+    constructor <;> (rintro rfl; revert hf; unfold fieldOrder; split <;> decide)
+  simp [hfm.1, hfm.2]
 
 theorem foldl_back {α : Type} (G : Entry × TState → α → Entry × TState) (w : α → Entry)
     (hG : ∀ acc x, Clean (G acc x).1 → Clean acc.1 ∧ Clean (w x)) (l : List α) (acc : Entry × TState)
@@ -52,16 +67,16 @@ error-free values of the substatements the step converts. -/
 theorem step_back (isMod : Bool) (acc : Entry × TState) (f : String) (hinc : f = "include" → n.all "include" = [])
     (hin : f = "input" → acc.1.inp = []) (hout : f = "output" → acc.1.out = [])
     (h : Clean (stepFn env (pureRec v) root n sub vis isMod acc f).1) :
-    Clean acc.1 ∧ ∀ c, Called n f c → Clean (v root sub c) := by
+    Clean acc.1 ∧ ∀ c, CalledE n f c → Clean (v root sub c) := by
   obtain ⟨e, st⟩ := acc
   dsimp only at hin hout
-  have hnone : ∀ (g : String), g ∉ convKws → g ≠ "input" → g ≠ "output" → ∀ c, Called n g c → Clean (v root sub c) := by
+  have hnone : ∀ (g : String), g ∉ convKws → g ≠ "input" → g ≠ "output" → ∀ c, CalledE n g c → Clean (v root sub c) := by
     rintro g h1 h2 h3 c (⟨h, _⟩ | ⟨h | h, _⟩)
     · exact absurd h h1
     · exact absurd h h2
     · exact absurd h h3
   have hconv : ∀ (g : String), g ≠ "input" → g ≠ "output" → (∀ c ∈ n.all g, Clean (v root sub c)) →
-      ∀ c, Called n g c → Clean (v root sub c) := by
+      ∀ c, CalledE n g c → Clean (v root sub c) := by
     rintro g h2 h3 hall c (⟨_, hc⟩ | ⟨h | h, _⟩)
     · exact hall c hc
     · exact absurd h h2
@@ -185,7 +200,7 @@ theorem step_back (isMod : Bool) (acc : Entry × TState) (f : String) (hinc : f 
 theorem foldl_steps_back (hinc : "include" ∈ fieldOrder n.kw → n.all "include" = []) (isMod : Bool) (l : List String)
     (hl : ∀ f ∈ l, f ∈ fieldOrder n.kw) (hio : ∀ f ∈ l, f ≠ "input" ∧ f ≠ "output") (acc : Entry × TState)
     (h : Clean (l.foldl (stepFn env (pureRec v) root n sub vis isMod) acc).1) :
-    Clean acc.1 ∧ ∀ f ∈ l, ∀ c, Called n f c → Clean (v root sub c) := by
+    Clean acc.1 ∧ ∀ f ∈ l, ∀ c, CalledE n f c → Clean (v root sub c) := by
   induction l generalizing acc with
   | nil => exact ⟨h, by simp⟩
   | cons f fs ih =>
@@ -203,7 +218,7 @@ theorem foldl_steps_back (hinc : "include" ∈ fieldOrder n.kw → n.all "includ
 /-- All field steps backwards. -/
 theorem steps_back (hinc : "include" ∈ fieldOrder n.kw → n.all "include" = []) (isMod : Bool) (st : TState)
     (h : Clean ((fieldOrder n.kw).foldl (stepFn env (pureRec v) root n sub vis isMod) (e0 root n, st)).1) :
-    ∀ f ∈ fieldOrder n.kw, ∀ c, Called n f c → Clean (v root sub c) := by
+    ∀ f ∈ fieldOrder n.kw, ∀ c, CalledE n f c → Clean (v root sub c) := by
   by_cases hio : "input" ∈ fieldOrder n.kw ∨ "output" ∈ fieldOrder n.kw
   · have hfo := fieldOrder_io _ hio
     rw [hfo] at h ⊢
@@ -242,7 +257,7 @@ theorem core_back (env : Env) (v : PVal) (root : Mod) (scope : List Stmt) (n : S
     (h : Clean (core env (pureRec v) root scope n vis st lk isMod).1) :
     (n.kw = "uses" → ∃ g gr gs, lk = some (g, gr, gs) ∧ Clean (v gr gs g)) ∧
     (n.kw ≠ "leaf" → n.kw ≠ "leaf-list" → n.kw ≠ "uses" →
-      ∀ f ∈ fieldOrder n.kw, ∀ c, Called n f c → Clean (v root (n :: scope) c)) := by
+      ∀ f ∈ fieldOrder n.kw, ∀ c, CalledE n f c → Clean (v root (n :: scope) c)) := by
   unfold core at h
   split at h
   · rename_i hk
@@ -300,7 +315,8 @@ theorem not_clean_errorEntry (root : Mod) (n : Stmt) (cls : String) : ¬ Clean (
 theorem REl_id_refl (e : Entry) : REl id e e := fun _ => ren_id e
 
 /-- `pcore` respects "equal where error free" (left to right). -/
-theorem pcore_rel (env : Env) (lk : Lookup) (v w : PVal) (hvw : ∀ r s c, Clean (v r s c) → v r s c = w r s c)
+theorem pcore_rel (env : Env) (lk : Lookup) (hlk : ∀ r s a g gr gs, lk r s a = some (g, gr, gs) → isModKw g = false)
+    (v w : PVal) (hvw : ∀ r s c, isModKw c = false → Clean (v r s c) → v r s c = w r s c)
     (root : Mod) (scope : List Stmt) (n : Stmt) (hnm : isModKw n = false)
     (h : Clean (pcore env lk v root scope n)) : pcore env lk v root scope n = pcore env lk w root scope n := by
   have hinc : "include" ∈ fieldOrder n.kw → n.all "include" = [] := by
@@ -311,18 +327,176 @@ theorem pcore_rel (env : Env) (lk : Lookup) (v w : PVal) (hvw : ∀ r s c, Clean
     all_goals first
       | (exfalso; revert hf; decide)
       | simp_all
-  have hrel : ∀ r s c, REl id (v r s c) (w r s c) := fun r s c hc => by rw [ren_id]; exact hvw r s c hc
+  have hrel : ∀ r s c, isModKw c = false → REl id (v r s c) (w r s c) :=
+    fun r s c hm hc => by rw [ren_id]; exact hvw r s c hm hc
   have := core_rel (RE := REl id) (RS := fun _ _ => True) (closed2_REl id) env env (pureRec v) (pureRec w) root root n
     scope scope [] [] {} {} trivial (lk root scope n.arg) (lk root scope n.arg) false
     (REl_id_refl _) (fun _ => REl_id_refl _) (REl_id_refl _) (fun _ _ => rfl) hinc
-    (fun c _ _ _ _ => ⟨hrel _ _ _, trivial⟩)
+    (fun c hc _ _ _ => ⟨hrel _ _ _ (by obtain ⟨f, hf, hcf⟩ := hc; exact called_not_mod hf hcf), trivial⟩)
     (fun _ => by
-      cases lk root scope n.arg with
+      cases hl : lk root scope n.arg with
       | none => trivial
-      | some r => obtain ⟨g, gr, gs⟩ := r; exact fun _ _ _ => ⟨hrel _ _ _, trivial⟩)
+      | some r => obtain ⟨g, gr, gs⟩ := r; exact fun _ _ _ => ⟨hrel _ _ _ (hlk _ _ _ _ _ _ hl), trivial⟩)
     (fun h => absurd h (by decide)) (fun h => absurd h (by decide)) (fun _ _ _ _ _ _ _ => trivial)
   have h2 := this.1 h
   rw [ren_id] at h2
   exact h2
+
+
+section Val
+variable (env : Env) (lk : Lookup) (hlk : ∀ r s a g gr gs, lk r s a = some (g, gr, gs) → isModKw g = false)
+include hlk
+
+/-- An error-free value is stable under more fuel. -/
+theorem pent_mono : ∀ (f : Nat) (root : Mod) (scope : List Stmt) (n : Stmt), isModKw n = false →
+    Clean (pent env lk f root scope n) → pent env lk (f + 1) root scope n = pent env lk f root scope n := by
+  intro f
+  induction f with
+  | zero => intro root scope n _ h; exact absurd h (not_clean_errorEntry _ _ _)
+  | succ f ih =>
+    intro root scope n hn h
+    exact (pcore_rel env lk hlk (pent env lk f) (pent env lk (f + 1)) (fun r s c hc hcl => (ih r s c hc hcl).symm)
+      root scope n hn h).symm
+
+theorem pent_stable (f k : Nat) (root : Mod) (scope : List Stmt) (n : Stmt) (hn : isModKw n = false)
+    (h : Clean (pent env lk f root scope n)) : pent env lk (f + k) root scope n = pent env lk f root scope n := by
+  induction k with
+  | zero => rfl
+  | succ k ih =>
+    have : f + (k + 1) = (f + k) + 1 := by omega
+    rw [this, pent_mono env lk hlk (f + k) root scope n hn (by rw [ih]; exact h), ih]
+
+theorem pent_le (f g : Nat) (hfg : f ≤ g) (root : Mod) (scope : List Stmt) (n : Stmt) (hn : isModKw n = false)
+    (h : Clean (pent env lk f root scope n)) : pent env lk g root scope n = pent env lk f root scope n := by
+  obtain ⟨k, rfl⟩ : ∃ k, g = f + k := ⟨g - f, by omega⟩
+  exact pent_stable env lk hlk f k root scope n hn h
+
+omit hlk in
+/-- The statement has an error-free value. -/
+def HasVal (root : Mod) (scope : List Stmt) (n : Stmt) : Prop := ∃ f, Clean (pent env lk f root scope n)
+
+open Classical in
+omit hlk in
+/-- The least-effort witness. -/
+noncomputable def fuelOf (root : Mod) (scope : List Stmt) (n : Stmt) : Nat :=
+  if h : HasVal env lk root scope n then Classical.choose h else 0
+
+open Classical in
+omit hlk in
+/-- **The value of a statement**: its error-free conversion, if it has one. -/
+noncomputable def val : PVal := fun root scope n => pent env lk (fuelOf env lk root scope n) root scope n
+
+omit hlk in
+theorem fuelOf_clean (root : Mod) (scope : List Stmt) (n : Stmt) (h : HasVal env lk root scope n) :
+    Clean (pent env lk (fuelOf env lk root scope n) root scope n) := by
+  unfold fuelOf
+  rw [dif_pos h]
+  exact Classical.choose_spec h
+
+theorem val_eq (f : Nat) (root : Mod) (scope : List Stmt) (n : Stmt) (hn : isModKw n = false)
+    (h : Clean (pent env lk f root scope n)) : val env lk root scope n = pent env lk f root scope n := by
+  have hv : HasVal env lk root scope n := ⟨f, h⟩
+  have hc := fuelOf_clean env lk root scope n hv
+  unfold val
+  rcases Nat.le_total f (fuelOf env lk root scope n) with hle | hle
+  · exact pent_le env lk hlk f _ hle root scope n hn h
+  · exact (pent_le env lk hlk _ f hle root scope n hn hc).symm
+
+omit hlk in
+theorem val_clean (root : Mod) (scope : List Stmt) (n : Stmt) (h : Clean (val env lk root scope n)) :
+    HasVal env lk root scope n := ⟨_, h⟩
+
+theorem val_ge (g : Nat) (root : Mod) (scope : List Stmt) (n : Stmt) (hn : isModKw n = false)
+    (h : Clean (val env lk root scope n)) (hg : fuelOf env lk root scope n ≤ g) :
+    pent env lk g root scope n = val env lk root scope n :=
+  pent_le env lk hlk _ g hg root scope n hn h
+
+omit hlk in
+theorem fuelOf_pos (root : Mod) (scope : List Stmt) (n : Stmt) (h : Clean (val env lk root scope n)) :
+    0 < fuelOf env lk root scope n := by
+  rcases Nat.eq_zero_or_pos (fuelOf env lk root scope n) with h0 | h0
+  · unfold val at h
+    rw [h0] at h
+    exact absurd h (not_clean_errorEntry _ _ _)
+  · exact h0
+
+/-- The value satisfies the equation of one level of conversion (when it is error free). -/
+theorem val_unfold (root : Mod) (scope : List Stmt) (n : Stmt) (hn : isModKw n = false)
+    (h : Clean (val env lk root scope n)) : val env lk root scope n = pcore env lk (val env lk) root scope n := by
+  have hp := fuelOf_pos env lk root scope n h
+  obtain ⟨k, hk⟩ : ∃ k, fuelOf env lk root scope n = k + 1 := ⟨fuelOf env lk root scope n - 1, by omega⟩
+  have h1 : val env lk root scope n = pcore env lk (pent env lk k) root scope n := by
+    unfold val; rw [hk]; rfl
+  rw [h1]
+  rw [h1] at h
+  exact pcore_rel env lk hlk (pent env lk k) (val env lk)
+    (fun r s c hc hcl => (val_eq env lk hlk k r s c hc hcl).symm) root scope n hn h
+
+omit hlk in
+theorem le_foldr_max {α : Type} (g : α → Nat) (l : List α) (a : Nat) : a ≤ l.foldr (fun x m => max (g x) m) a ∧
+    ∀ x ∈ l, g x ≤ l.foldr (fun x m => max (g x) m) a := by
+  induction l with
+  | nil => exact ⟨Nat.le_refl _, by simp⟩
+  | cons y ys ih =>
+    simp only [List.foldr_cons]
+    refine ⟨Nat.le_trans ih.1 (Nat.le_max_right _ _), ?_⟩
+    intro x hx
+    rcases List.mem_cons.1 hx with rfl | hx
+    · exact Nat.le_max_left _ _
+    · exact Nat.le_trans (ih.2 x hx) (Nat.le_max_right _ _)
+
+/-- … and one level of conversion over values, when error free, is the value. -/
+theorem val_fold (root : Mod) (scope : List Stmt) (n : Stmt) (hn : isModKw n = false)
+    (h : Clean (pcore env lk (val env lk) root scope n)) :
+    val env lk root scope n = pcore env lk (val env lk) root scope n := by
+  -- a fuel that is enough for every substatement and for the grouping of a `uses`
+  let F0 : Nat := match lk root scope n.arg with
+    | some (g, gr, gs) => fuelOf env lk gr gs g
+    | none => 0
+  let F : Nat := n.subs.foldr (fun c m => max (fuelOf env lk root (n :: scope) c) m) F0
+  have hF := le_foldr_max (fun c => fuelOf env lk root (n :: scope) c) n.subs F0
+  -- with that fuel, `pent` agrees with `val` wherever `val` is error free … but `pcore_rel` wants
+  -- all places: use the relational form directly
+  have hinc : "include" ∈ fieldOrder n.kw → n.all "include" = [] := by
+    intro hf
+    unfold isModKw at hn
+    unfold fieldOrder at hf
+    split at hf
+    all_goals first
+      | (exfalso; revert hf; decide)
+      | simp_all
+  have := core_rel (RE := REl id) (RS := fun _ _ => True) (closed2_REl id) env env (pureRec (val env lk))
+    (pureRec (pent env lk F)) root root n scope scope [] [] {} {} trivial (lk root scope n.arg) (lk root scope n.arg) false
+    (REl_id_refl _) (fun _ => REl_id_refl _) (REl_id_refl _) (fun _ _ => rfl) hinc
+    (fun c hc _ _ _ => ⟨fun hcl => by
+        obtain ⟨f, hf, hcf⟩ := hc
+        rw [ren_id]
+        exact (val_ge env lk hlk F root (n :: scope) c (called_not_mod hf hcf) hcl (hF.2 c hcf.mem)).symm, trivial⟩)
+    (fun _ => by
+      cases hl : lk root scope n.arg with
+      | none => trivial
+      | some r =>
+        obtain ⟨g, gr, gs⟩ := r
+        refine fun _ _ _ => ⟨fun hcl => ?_, trivial⟩
+        rw [ren_id]
+        refine (val_ge env lk hlk F gr gs g (hlk _ _ _ _ _ _ hl) hcl ?_).symm
+        have : F0 = fuelOf env lk gr gs g := by simp only [F0, hl]
+        rw [← this]; exact hF.1)
+    (fun h => absurd h (by decide)) (fun h => absurd h (by decide)) (fun _ _ _ _ _ _ _ => trivial)
+  have h2 := this.1 h
+  rw [ren_id] at h2
+  have h3 : pcore env lk (val env lk) root scope n = pent env lk (F + 1) root scope n := h2
+  rw [h3] at h ⊢
+  exact val_eq env lk hlk (F + 1) root scope n hn h
+
+/-- The fixed-point equation of the value, in the form the traversal uses. -/
+theorem val_fix (root : Mod) (scope : List Stmt) (n : Stmt) (hn : isModKw n = false)
+    (h : Clean (val env lk root scope n) ∨ Clean (pcore env lk (val env lk) root scope n)) :
+    val env lk root scope n = pcore env lk (val env lk) root scope n := by
+  rcases h with h | h
+  · exact val_unfold env lk hlk root scope n hn h
+  · exact val_fold env lk hlk root scope n hn h
+
+end Val
 
 end Goyang.Lemmas.IncludePure
